@@ -245,6 +245,97 @@ def run(ctx):
                 ctx.violation('shared parser scratch sets not empty between calls', {'ops': [list(o) for o in ops[:i + 1]], 'kind': 'shared'})
                 break
         ctx.case({'ops': [list(o) for o in ops[:6]]}, nontrivial_key=('s', repr(ops)), kind='hist:shared')
+    # ---- (4) consumers of the reported sets: real grader calls on the shared parser, then a sweep of every cached expression
+    fresh_usage, history = {}, []
+    cache_sweep(ctx, fresh_usage, history)
+    ops = consumer_ops(rng)
+    for k in range(ctx.scale(150, 1500)):
+        label, thunk = rng.choice(ops)
+        try:
+            with_alarm(thunk, 20)
+            outcome = 'returned'
+        except Timeout:
+            outcome = 'timeout'
+        except MITxError as e:
+            outcome = type(e).__name__
+        except Exception as e:
+            outcome = 'exc:' + type(e).__name__
+        history.append((label, outcome))
+        ctx.count('consumer:%s:%s' % (label, outcome if outcome in ('returned', 'timeout') else 'error'))
+        bad = cache_sweep(ctx, fresh_usage, history)
+        ctx.case({'consumer': label, 'outcome': outcome, 'cache_size': len(PARSER.cache)}, nontrivial_key=('c', k, label) if outcome == 'returned' else None, kind='hist:consumer')
+        if bad:
+            break
+
+
+def consumer_ops(rng):
+    """library operations that parse through the shared PARSER and then USE the reported name sets (graders of every math class);
+    each is (label, thunk). None of them may change what the parser reports for any string afterwards."""
+    from mitxgraders import (FormulaGrader, NumericalGrader, MatrixGrader, SumGrader, ListGrader, SingleListGrader,
+                             RealInterval, IntegerRange, DependentSampler, RealVectors)
+    fexprs = ['floor(N/2)', 'abs(N)+1', 'max(N,2)', 'sqrt(N^2)', 'N', '3', 'ceil(N/3)+min(2,N)']
+    summands = ['k^2', 'k*x', '1/k^2', 'sin(k)', 'k', 'k+N', '2^(-k)']
+
+    def sumg():
+        lo, up, sm = rng.choice(['1', '0', 'abs(-1)'] + fexprs[:2]), rng.choice(fexprs), rng.choice(summands)
+        g = SumGrader(answers={'lower': lo, 'upper': up, 'summand': sm, 'summation_variable': 'k'},
+                      input_positions=rng.choice([{'summand': 1}, {'lower': 1, 'upper': 2, 'summand': 3}, {'upper': 1, 'summand': 2}]),
+                      variables=['N', 'x'], sample_from={'N': IntegerRange([4, 9]), 'x': RealInterval([1, 2])}, samples=2)
+        pos = g.config['input_positions']
+        fields = {'lower': rng.choice([lo, 'max(1,0)']), 'upper': rng.choice([up, 'floor(N/2)', 'round(N)']), 'summand': rng.choice([sm, 'k^2', 'abs(k)'])}
+        inp = [fields[k] for k in sorted([k for k in pos if pos[k] is not None], key=lambda k: pos[k])]
+        return g(None, inp if len(inp) > 1 else inp[0])
+
+    def formg():
+        ans = rng.choice(['x^2+sin(y)', 'k^2', 'a_{1}+a_{2}', 'x*y+2k', 'cos(x)^2', 'abs(x)+k'])
+        kw = rng.choice([{}, {'whitelist': ['sin', 'cos', 'abs']}, {'blacklist': ['tan']}, {'required_functions': ['sin']},
+                         {'forbidden_strings': ['x*x']}, {'whitelist': [None]}])
+        g = FormulaGrader(answers=ans, variables=['x', 'y', 'k', 'z'], numbered_vars=['a'], metric_suffixes=rng.random() < 0.5,
+                          sample_from={'z': DependentSampler(depends=['x', 'y'], formula=rng.choice(['x+y', 'sin(x)*y', 'k^2', 'abs(x)']))}, **kw)
+        return g(None, rng.choice([ans, 'x^2', 'k^2', 'k*k', 'sin(y)+x*x', 'z+1', 'abs(x)+k', 'tan(x)']))
+
+    def numg():
+        g = NumericalGrader(answers=rng.choice(['2k', '1200', 'sqrt(4)', 'abs(-3)', '5%']), metric_suffixes=True, tolerance='1%')
+        return g(None, rng.choice(['2k', '2000', '1.2k', 'sqrt(4)', 'abs(-3)', '0.05', '2', 'floor(2.5)']))
+
+    def matg():
+        g = MatrixGrader(answers=rng.choice(['[x,y]*2', 'A*v', 'trans(A)*A', 'norm(v)*k^2']), variables=['x', 'y', 'A', 'v', 'k'],
+                         sample_from={'A': RealVectors(shape=[2, 2]) if False else __import__('mitxgraders').RealMatrices(shape=[2, 2]), 'v': RealVectors(shape=2)})
+        return g(None, rng.choice(['[x,y]*2', '[2*x,2*y]', 'A*v', 'trans(A)*A', 'k^2*norm(v)', 'k^2', 'abs(v)']))
+
+    def listg():
+        g = ListGrader(answers=['x+1', 'k^2'], subgraders=FormulaGrader(variables=['x', 'k']), ordered=rng.random() < 0.5)
+        return g(None, [rng.choice(['x+1', 'k^2', '1+x']), rng.choice(['k^2', 'k*k', 'abs(k)^2'])])
+
+    def slg():
+        g = SingleListGrader(answers=['k^2', 'x+1'], subgrader=FormulaGrader(variables=['x', 'k']))
+        return g(None, rng.choice(['k^2, x+1', 'x+1, k^2', 'k*k, abs(x)+1']))
+
+    def sibling():
+        g = ListGrader(answers=['k^2', 'floor(k)'], subgraders=[FormulaGrader(variables=['k']),
+                       FormulaGrader(variables=['k'], sample_from={}, answers=None) if False else FormulaGrader(variables=['k'])], ordered=True)
+        return g(None, ['k^2', rng.choice(['floor(k)', 'floor(sibling_1)', 'sibling_1'])])
+    return [('SumGrader', sumg), ('FormulaGrader', formg), ('NumericalGrader', numg), ('MatrixGrader', matg), ('ListGrader', listg),
+            ('SingleListGrader', slg), ('siblings', sibling)]
+
+
+def cache_sweep(ctx, fresh_usage, history):
+    """every cached expression of the shared PARSER must still report exactly what a fresh parser reports for its key"""
+    from mitxgraders.helpers.calc.expressions import MathParser, PARSER
+    bad = 0
+    for key, expr in list(PARSER.cache.items()):
+        if key not in fresh_usage:
+            try:
+                fresh_usage[key] = usage_of(MathParser().parse(key))
+            except Exception as e:
+                fresh_usage[key] = ('unparseable', type(e).__name__)
+        if usage_of(expr) != fresh_usage[key]:
+            ctx.violation('names reported for a string changed after other library calls (cached name sets were altered)',
+                          {'string': key, 'kind': 'cache-sweep', 'history': history[-12:]}, impl=usage_of(expr), expected=fresh_usage[key])
+            bad += 1
+            if bad >= 3:
+                break
+    return bad
 
 
 def search(ctx):
